@@ -8,7 +8,7 @@
 Require Import Cherab.Common.Qx.
 From Coq Require Import Lqa.
 Require Import Cherab.Model.C09_Balance Cherab.Model.C09_Check Cherab.Model.C09_Interp.
-Require Import Cherab.Proofs.C09_Balance Cherab.Proofs.C09_Check Cherab.Proofs.C09_More.
+Require Import Cherab.Proofs.C09_Balance Cherab.Proofs.C09_Check Cherab.Proofs.C09_More Cherab.Proofs.C09_More2.
 From Coq Require Import Permutation.
 Open Scope Q_scope.
 
@@ -216,6 +216,102 @@ Theorem C09_interpolated_densities_conserve :
   sumn n (blend (fun z => fa z * na) (fun z => fb z * nb) w) == na + (nb - na) * w.
 Proof. exact blend_densities. Qed.
 Print Assumptions C09_interpolated_densities_conserve.
+
+(* ---- second deepening round -------------------------------------------------------------------------------- *)
+
+(* constructive existence to go with uniqueness, on the code's own matrix: the list n_e * closed form solves it, every
+   component is strictly positive and at most n_e (so the bounds (0, n_e) handed to lsq_linear are inactive), and any
+   other solution coincides with it *)
+Theorem C09_matrix_solution_exists_unique :
+  forall Z ion rec cx nd ne, rates_ok Z ion rec cx nd ne ->
+  let sol := map (fun z => ne * fractional_point Z ion rec cx nd ne z) (seq 0 (S Z)) in
+  length sol = S Z
+  /\ Forall2 Qeq (matvec (balance_matrix Z ion rec cx nd ne) sol) (balance_rhs Z ne)
+  /\ (forall z, (z <= Z)%nat -> 0 < nth z sol 0 /\ nth z sol 0 <= ne)
+  /\ (forall xs, length xs = S Z -> Forall2 Qeq (matvec (balance_matrix Z ion rec cx nd ne) xs) (balance_rhs Z ne) ->
+      forall z, (z <= Z)%nat -> nth z xs 0 == nth z sol 0).
+Proof. exact matrix_solution_exists_unique. Qed.
+Print Assumptions C09_matrix_solution_exists_unique.
+
+(* profile level, 1-D interpolator entry points: if every knot holds a balance solution ([knot_ok]: in [0,1], sums to
+   one), then at every x where the interpolators are defined all charge states use the same segment and weight and the
+   interpolated fractions are in [0,1] and sum to one *)
+Theorem C09_interpolated_profile_conserves :
+  forall n xs (tbl : nat -> list Q) x,
+  increasing xs -> (forall k, (k < length xs)%nat -> knot_ok n tbl k) ->
+  forall i w, locate xs x 0 = Some (i, w) ->
+  (forall z, lerp xs (tbl z) x = Some (blend (fun c => nth i (tbl c) 0) (fun c => nth (S i) (tbl c) 0) w z))
+  /\ (forall z, (z < n)%nat -> 0 <= blend (fun c => nth i (tbl c) 0) (fun c => nth (S i) (tbl c) 0) w z
+                            /\ blend (fun c => nth i (tbl c) 0) (fun c => nth (S i) (tbl c) 0) w z <= 1)
+  /\ sumn n (blend (fun c => nth i (tbl c) 0) (fun c => nth (S i) (tbl c) 0) w) == 1.
+Proof. exact profile_lerp_conserves. Qed.
+Print Assumptions C09_interpolated_profile_conserves.
+
+(* equilibrium-mapped entry points (Model/C09_Interp.map3d): for ANY flux function psin, inside test and square root,
+   the mapped fractions are the outside value outside the LCFS and, inside, the interpolant at psi_n: in [0,1], summing
+   to one.  What remains outside the model is only that EFITEquilibrium / raysect compute these three functions and
+   this composition (tied by the correspondence). *)
+Theorem C09_equilibrium_mapped_profile_conserves :
+  forall n xs (tbl : nat -> list Q) psin inside outside sqrt x y z,
+  increasing xs -> (forall k, (k < length xs)%nat -> knot_ok n tbl k) ->
+  let r := sqrt (x * x + y * y) in
+  (inside r z = false -> forall c, map3d (lerp xs (tbl c)) psin inside outside sqrt x y z = Some outside)
+  /\ (inside r z = true -> forall i w, locate xs (psin r z) 0 = Some (i, w) ->
+      let g := blend (fun c => nth i (tbl c) 0) (fun c => nth (S i) (tbl c) 0) w in
+      (forall c, map3d (lerp xs (tbl c)) psin inside outside sqrt x y z = Some (g c))
+      /\ (forall c, (c < n)%nat -> 0 <= g c /\ g c <= 1) /\ sumn n g == 1).
+Proof. exact mapped_profile_conserves. Qed.
+Print Assumptions C09_equilibrium_mapped_profile_conserves.
+
+(* 2-D interpolator entry points: the bilinear interpolant passes through its knots, is a blend of blends with weights
+   in [0,1] that depend on the grids and (x, y) only, and such a blend of four balance solutions conserves *)
+Theorem C09_bilinear_through_knots :
+  forall xs ys tbl i j,
+  increasing xs -> increasing ys -> (i < length xs)%nat -> (j < length ys)%nat ->
+  (2 <= length xs)%nat -> (2 <= length ys)%nat ->
+  oQeq (bilerp xs ys tbl (nth i xs 0) (nth j ys 0)) (Some (cell tbl i j)).
+Proof. exact bilerp_through_knots. Qed.
+Print Assumptions C09_bilinear_through_knots.
+
+Theorem C09_bilinear_is_blend :
+  forall xs ys tbl x y, increasing xs -> increasing ys -> forall val, bilerp xs ys tbl x y = Some val ->
+  exists i j u v, locate xs x 0 = Some (i, u) /\ locate ys y 0 = Some (j, v) /\ 0 <= u <= 1 /\ 0 <= v <= 1 /\
+    val = blend (blend (fun _ => cell tbl i j) (fun _ => cell tbl (S i) j) u)
+                (blend (fun _ => cell tbl i (S j)) (fun _ => cell tbl (S i) (S j)) u) v O.
+Proof. exact bilerp_is_blend. Qed.
+Print Assumptions C09_bilinear_is_blend.
+
+Theorem C09_bilinear_fractions_conserve :
+  forall n f00 f10 f01 f11 u v, 0 <= u -> u <= 1 -> 0 <= v -> v <= 1 ->
+  (forall g, In g [f00; f10; f01; f11] -> (forall z, (z < n)%nat -> 0 <= g z /\ g z <= 1) /\ sumn n g == 1) ->
+  let b := blend (blend f00 f10 u) (blend f01 f11 u) v in
+  (forall z, (z < n)%nat -> 0 <= b z /\ b z <= 1) /\ sumn n b == 1.
+Proof. exact bilinear_fractions. Qed.
+Print Assumptions C09_bilinear_fractions_conserve.
+
+(* how the n_e scaling enters (the known finding c09:lsq-illconditioned, exact-arithmetic side): the objective of line
+   240 is balance part + normalisation part; under rates * k and densities * m the balance part is multiplied by
+   k^2 m^4 but the normalisation part only by m^2, so their relative weight is (k m)^-2: not scale-invariant, although
+   the minimiser is (C09_scale_covariant) ... *)
+Theorem C09_objective_scaling :
+  forall Z ion rec cx nd ne k m x, ~ ne == 0 -> ~ m == 0 ->
+  bal_part Z (fun c => k * ion c) (fun c => k * rec c) (option_map (fun f c => k * f c) cx) (m * nd) (m * ne) (fun z => m * x z)
+  == (k * k) * (m * m * m * m) * bal_part Z ion rec cx nd ne x
+  /\ norm_part Z (m * ne) (fun z => m * x z) == (m * m) * norm_part Z ne x.
+Proof. exact objective_scaling. Qed.
+Print Assumptions C09_objective_scaling.
+
+(* ... and along the ray s * (n_e f) all balance rows vanish: a wrong total s is seen only through (s-1)^2 n_e^2, while
+   the balance rows have entries of size n_e * rate acting on components of size n_e.  In binary64 their rounding floor
+   is about (2^-53 n_e^2 rate)^2, which exceeds n_e^2 as soon as n_e * rate > 2^53: the normalisation is then below the
+   noise (measured: sum of fractions 4.9e-18 at n_e * rate = 3e16).  The floating-point half of this sentence is NOT
+   proved here (no verified model of lsq_linear); the exact half is: *)
+Theorem C09_cost_along_ray_partial :
+  forall Z ion rec cx nd ne s, rates_ok Z ion rec cx nd ne ->
+  bal_part Z ion rec cx nd ne (fun z => s * (ne * fractional_point Z ion rec cx nd ne z)) == 0
+  /\ lsq_cost Z ion rec cx nd ne (fun z => s * (ne * fractional_point Z ion rec cx nd ne z)) == (s - 1) * (s - 1) * (ne * ne).
+Proof. exact cost_along_ray. Qed.
+Print Assumptions C09_cost_along_ray_partial.
 
 (* non-vacuity: carbon-like Z = 6 with all rates 1, n_D = n_e meets the hypotheses *)
 Example C09_nonvacuous :
